@@ -58,6 +58,11 @@ class Built:
         return e
 
     def fn(self, kind, name, owner=0):
+        if self.style.get("picklable"):
+            from . import picklelib as P
+
+            return {"body": getattr(P, "var_" + name, None), "apply": P.apply_g, "callback": P.cb,
+                    "effect": P.e1}[kind]
         log = self.log
         me = self
 
@@ -76,6 +81,10 @@ class Built:
 
     def body(self, name, nargs, owner=0):
         """A function with `nargs` named parameters (dataset definitions need a signature)."""
+        if self.style.get("picklable"):
+            from . import picklelib as P
+
+            return getattr(P, "body_%s%d" % (name, nargs))
         inner = self.fn("body", name, owner)
         if nargs == 0:
             def f():
@@ -220,9 +229,14 @@ class Built:
             else:
                 ds = L.dataset(O[nd["dflt"]], **kw)
         else:
-            def abstract():
-                raise AssertionError("abstract dataset body must never run")
-            abstract.__name__ = "abstract_%d" % i
+            if self.style.get("picklable"):
+                from . import picklelib as P
+
+                abstract = P.abstract_body
+            else:
+                def abstract():
+                    raise AssertionError("abstract dataset body must never run")
+                abstract.__name__ = "abstract_%d" % i
             ds = L.abstractdataset(abstract, **kw)
         if nd["tab"]:
             self.tabowner[nd["tab"]] = i
